@@ -522,9 +522,11 @@ func (c *octx) inFlight(clause string) *eng.Violation {
 				if n > limit {
 					return c.viol(clause, "batch node %d (concurrency %d): %d item executions in flight at seq %d", bv.mb.N, bv.mb.Conc, n, e.Seq)
 				}
-				if bv.mb.Conc <= 0 && e.Kind == "exec_start" && e.A == 1 {
-					if e.I-1 < nextItem {
-						return c.viol("sequential-order", "batch node %d (sequential): item %d started after item %d", bv.mb.N, e.I-1, nextItem-1)
+				if bv.mb.Conc <= 0 {
+					// one at a time in item order: everything done for item i (all its
+					// attempts, its fallback) comes before anything done for item i+1
+					if e.I < nextItem {
+						return c.viol("sequential-order", "batch node %d (sequential): %s of item %d (attempt %d) came after item %d had been started", bv.mb.N, e.Kind, e.I-1, e.A, nextItem-1)
 					}
 					nextItem = e.I
 				}
